@@ -374,6 +374,8 @@ fn stmt(rng: &mut Rng, a: &mut Asm, cfg: &StructCfg, depth: u32, budget: &mut i3
         32
     } else if rng.chance(1, 16) {
         33
+    } else if rng.chance(1, 16) {
+        34
     } else {
         choice
     };
@@ -972,6 +974,40 @@ fn stmt(rng: &mut Rng, a: &mut Asm, cfg: &StructCfg, depth: u32, budget: &mut i3
                 }
             });
             a.output(y);
+        }
+        34 => {
+            // x = m*x + k repeated a constant number of times, the count around half and all of
+            // the 8-bit range (closed forms that walk over the bits of the trip count)
+            let p = k + cfg.scratch + 1;
+            let (n, x, t) = (p, p + 1, p + 2);
+            for c in [n, x, t] {
+                a.clear(c);
+            }
+            match rng.below(8) {
+                0 => a.add(n, -1), // all ones: 255 rounds on 8-bit cells, beyond every cap on wider ones
+                1 => a.add(n, rng.range(2, 9)),
+                _ => a.add(n, *rng.pick(&[63i64, 64, 65, 127, 128, 129, 130, 131, 160, 192, 200, 254, 255])),
+            }
+            if rng.coin() {
+                a.input(x);
+            } else {
+                a.add(x, rng.range(0, 3));
+            }
+            let m = *rng.pick(&[2i64, 3, 4, 5, 6, 7, 9, 13, 16, -1, -3]);
+            let kk = *rng.pick(&[1i64, 1, 2, 3, -1, 5, 0]);
+            a.while_(n, |a| {
+                a.while_(x, |a| {
+                    a.add(t, m);
+                    a.add(x, -1);
+                });
+                a.while_(t, |a| {
+                    a.add(x, 1);
+                    a.add(t, -1);
+                });
+                a.add(x, kk);
+                a.add(n, -1);
+            });
+            a.output(x);
         }
         33 => {
             // a square or product is computed into y, then a factor is clobbered by input and y is
